@@ -428,6 +428,8 @@ type Contract struct {
 	Replay     []string
 	Lets       []*Clause
 	CallSites  map[string][]*Clause // callee name -> extra obligations at each call in this function
+	CallSiteEns  map[string][]*Clause // callee name -> facts assumed after each call in this function (trusted)
+	CallSiteMods map[string][]*Clause // callee name -> locations havocked at each call in this function (trusted)
 	CloseOnly  []string             // type block: channel fields that are never sent on, only closed
 	LockAssume []*Clause            // assumed right after every Lock in this function (token arguments); listed as assumptions
 	GhostDefs  [][2]*Clause         // ghost assignments at return: location, value
@@ -657,12 +659,34 @@ func ParseContractFile(path string, pkg string) (*ContractFile, error) {
 				callee, r2 = callee+" "+w2, r3
 			}
 			kw, r3 := firstWord(r2)
-			if kw != "requires" {
-				return nil, fail("callsite <callee> requires <expr>")
+			if kw != "requires" && kw != "ensures" && kw != "modifies" {
+				return nil, fail("callsite <callee> requires|ensures|modifies <expr>")
+			}
+			if kw == "modifies" {
+				// trusted: what an opaque callee changes at this site, in the caller's terms
+				for _, part := range splitCommas(r3) {
+					cl, err := mkClause("callsite-modifies", strings.TrimSpace(part), l.line)
+					if err != nil {
+						return nil, err
+					}
+					if cur.CallSiteMods == nil {
+						cur.CallSiteMods = map[string][]*Clause{}
+					}
+					cur.CallSiteMods[callee] = append(cur.CallSiteMods[callee], cl)
+				}
+				break
 			}
 			cl, err := mkClause("callsite", r3, l.line)
 			if err != nil {
 				return nil, err
+			}
+			if kw == "ensures" {
+				// trusted: assumed after the call, in the caller's terms (old() is the state before the call)
+				if cur.CallSiteEns == nil {
+					cur.CallSiteEns = map[string][]*Clause{}
+				}
+				cur.CallSiteEns[callee] = append(cur.CallSiteEns[callee], cl)
+				break
 			}
 			if cur.CallSites == nil {
 				cur.CallSites = map[string][]*Clause{}
